@@ -65,18 +65,43 @@ def shape(item):
     return {"t": item["f"], "n": len(item["v"]), "kids": []}
 
 
+class Hang(BaseException):
+    pass
+
+
+HANG = "\0HANG"
+
+
 def parse_batch(texts):
-    """Run the real parser on many texts; returns list of (index, sml of result) for accepted ones."""
+    """Run the real parser on many texts; returns list of (index, sml of result) for accepted ones and (index, HANG) for
+    texts on which the parser was still running after 10 s (per-text watchdog: SIGALRM raises inside the parser)."""
+    import signal
+
     from secsgem.secs.item import Item
+
+    def on_alarm(*_):
+        raise Hang()
+
+    signal.signal(signal.SIGALRM, on_alarm)
     out = []
+    hangs = 0
     for i, t in texts:
         try:
+            signal.setitimer(signal.ITIMER_REAL, 10.0 if hangs < 3 else 1.0)
             it = Item.from_sml(t)
+            signal.setitimer(signal.ITIMER_REAL, 0)
+        except Hang:
+            hangs += 1
+            out.append((i, HANG))
+            continue
         except Exception:  # noqa: BLE001
+            signal.setitimer(signal.ITIMER_REAL, 0)
             continue
         except BaseException:  # noqa: BLE001
+            signal.setitimer(signal.ITIMER_REAL, 0)
             continue
         out.append((i, it.to_sml() if it is not None else "None"))
+    signal.setitimer(signal.ITIMER_REAL, 0)
     return out
 
 
@@ -149,7 +174,18 @@ def run(ctx: Ctx):
                 i = rng.randrange(len(t2) - 1)
                 t2[i], t2[i + 1] = t2[i + 1], t2[i]
             muts.append(" ".join(t2))
-    allt = list(enumerate(strings + muts))
+    # character-level truncations: every proper prefix of printed texts (cuts inside type names, numbers, quoted literals)
+    # and the alphabet strings with a literal that is never closed
+    cuts = []
+    shortv = sorted(set(texts_valid), key=lambda t: (len(t), t))
+    pick = shortv[:40] + rng.sample(shortv, min(len(shortv), 60 if ctx.quick else 600))
+    for text in pick:
+        for k in range(1, len(text)):
+            cuts.append(text[:k])
+    for base_ in ('< A "x', "< A 'x", '< L < A "x" > < A "y', '< A "x" "y', '"', "'", '< U1 1 > "', '< L "', "< J 'x' 'y"):
+        cuts.append(base_)
+    cuts = list(dict.fromkeys(cuts))
+    allt = list(enumerate(strings + muts + cuts))
     accepted = []
     chunksz = 20000
     ctxmp = mp.get_context("fork")
@@ -161,6 +197,12 @@ def run(ctx: Ctx):
             except mp.TimeoutError:
                 ctx.violation({"check": "parser-termination", "what": f"the SML parser did not terminate within 300 s on a batch of {chunksz} "
                                f"strings starting with {allt[j * chunksz][1]!r}"})
+    hung = [(i, x) for i, x in accepted if x == HANG]
+    accepted = [(i, x) for i, x in accepted if x != HANG]
+    for i, _ in hung[:25]:
+        t = allt[i][1]
+        ctx.violation({"check": "parser-termination", "text": t[:200], "open_literal": t.count('"') % 2 == 1 or t.count("'") % 2 == 1,
+                       "what": f"Item.from_sml({t[:80]!r}) did not terminate (still running after 10 s)"})
     for i, sml in accepted:
         rid += 1
         recs.append({"k": "accepted", "id": rid, "toks": up_types(tokenize(allt[i][1])), "_text": allt[i][1], "_result": sml[:100]})
@@ -185,7 +227,7 @@ def run(ctx: Ctx):
     ctx.traces += len(recs)
     ctx.evaluations += len(items) + len(allt)
     ctx.nontrivial += nprinted + len(accepted)
-    ctx.extra.update({"token_strings": len(strings), "mutations": len(muts), "accepted_by_real_parser": len(accepted),
+    ctx.extra.update({"token_strings": len(strings), "mutations": len(muts), "character_level_truncations": len(cuts), "hangs": len(hung), "accepted_by_real_parser": len(accepted),
                       "printed_items": nprinted})
     if recs:
         ctx.sample({"printed": recs[0]["_sml"], "tokens": recs[0]["toks"][:12]})
@@ -194,7 +236,8 @@ def run(ctx: Ctx):
         ctx.sample({"accepted_string": acc[len(acc) // 2]["_text"], "result": acc[len(acc) // 2]["_result"]})
     ctx.exhaustive = True
     ctx.rule = (f"round trip: all E5-universe items + seeded random items; rejection/termination: ALL token strings of length <= {maxlen} "
-                "over {<,>,[,],L,U1,A,1,\"x\",X,.} + single-token edits of valid SML; non-trivial = printed items + strings the real "
+                "over {<,>,[,],L,U1,A,1,\"x\",X,.} + single-token edits of valid SML + every proper prefix (character level) of printed "
+                "texts + texts ending inside a quoted literal, each under a 10 s watchdog; non-trivial = printed items + strings the real "
                 "parser accepted (each judged by TLC)")
     ctx.assumptions += ["floats are compared through the re-encoded bytes (no decimal float parser in the reference)",
                         "the harness tokenizer (operators, white space, quoted literals) defines the token view of a text"]
